@@ -333,21 +333,56 @@ fn chunk(body: &[u8], rng: &mut Rng, extensions: bool) -> Vec<u8> {
         let q = (p + n).min(body.len());
         let size = q - p;
         let hex = if rng.coin() { format!("{size:x}") } else { format!("{size:X}") };
+        // chunk-size = 1*HEXDIG: leading zeros are legal, and the size line has no length limit
+        if rng.chance(1, 5) {
+            out.extend_from_slice("0".repeat(1 + rng.usize(24)).as_bytes());
+        }
         out.extend_from_slice(hex.as_bytes());
         if extensions && rng.chance(1, 2) {
-            out.extend_from_slice(*rng.pick(&[&b";ext=1"[..], b";a=b;c", b"; name=\"v\""]));
+            push_extension(&mut out, rng);
         }
         out.extend_from_slice(b"\r\n");
         out.extend_from_slice(&body[p..q]);
         out.extend_from_slice(b"\r\n");
         p = q;
     }
-    out.extend_from_slice(b"0\r\n");
+    // the last chunk may be zero-padded and carry extensions too
+    if rng.chance(1, 6) {
+        out.extend_from_slice("0".repeat(rng.usize(20)).as_bytes());
+    }
+    out.extend_from_slice(b"0");
+    if extensions && rng.chance(1, 3) {
+        push_extension(&mut out, rng);
+    }
+    out.extend_from_slice(b"\r\n");
     if rng.chance(1, 4) {
         out.extend_from_slice(b"X-Trailer: 1\r\n");
     }
     out.extend_from_slice(b"\r\n");
     out
+}
+
+/// One to three chunk extensions of seeded length: bare names, name=token, name="quoted
+/// string" (up to ~60 bytes, never containing CR or LF).
+fn push_extension(out: &mut Vec<u8>, rng: &mut Rng) {
+    for _ in 0..1 + rng.usize(3) {
+        match rng.below(4) {
+            0 => out.extend_from_slice(*rng.pick(&[&b";ext=1"[..], b";a=b;c", b"; name=\"v\""])),
+            1 => {
+                out.extend_from_slice(b";n");
+                out.extend_from_slice("x".repeat(rng.usize(40)).as_bytes());
+            }
+            2 => {
+                out.extend_from_slice(b";sig=\"");
+                out.extend_from_slice("chunk 0 of lakehouse ".repeat(rng.usize(3)).as_bytes());
+                out.extend_from_slice(b"\"");
+            }
+            _ => {
+                out.extend_from_slice(b";k=");
+                out.extend_from_slice("0123456789abcdef".repeat(1 + rng.usize(3)).as_bytes());
+            }
+        }
+    }
 }
 
 pub fn run_c41(_p: &str, tier: Tier, run_seed: u64, _ov: &Value) -> RunOut {
@@ -383,6 +418,7 @@ pub fn run_c41(_p: &str, tier: Tier, run_seed: u64, _ov: &Value) -> RunOut {
         let term = framed.len();
         for k in 0..term {
             let cut = &framed[..k];
+            out.bump("fault.truncate.armed");
             match call(cut) {
                 Err(p) => {
                     out.violations.push(viol("decoder-never-panics", "panic", vec!["truncated".into()], format!("dechunk panicked on a {k}-byte prefix: {p}"), json!({})));
@@ -401,7 +437,6 @@ pub fn run_c41(_p: &str, tier: Tier, run_seed: u64, _ov: &Value) -> RunOut {
             }
             out.bump("fault.truncate.fired");
         }
-        out.bump("fault.truncate.armed");
         // (3) malformed framing
         let mut bad: Vec<(&str, Vec<u8>)> = Vec::new();
         if !body.is_empty() {
